@@ -90,6 +90,7 @@ type Exec struct {
 	mutexes    map[*Value]*mutexState
 	wgs        map[*Value]*wgState
 	onces      map[*Value]*onceState
+	pools      map[*Value][]Value
 	timerObjs  map[*Value]*Timer
 	wraps      map[*Value]Iface
 	timers     []*Timer
@@ -582,6 +583,7 @@ func RunPath(p *Program, fn *ssa.Function, prefix []int, s *Solver, opt Options)
 		mutexes:   map[*Value]*mutexState{},
 		wgs:       map[*Value]*wgState{},
 		onces:     map[*Value]*onceState{},
+		pools:     map[*Value][]Value{},
 		timerObjs: map[*Value]*Timer{},
 		wraps:     map[*Value]Iface{},
 		nameCount: map[string]int{},
